@@ -221,6 +221,36 @@ func directedJSONText() []string {
 			}
 		}
 	}
+	// the dangling exponent marker (protobuf-go leniency on the integer path) on every integer / enum
+	// field of both schemas, bare and string form; :A = protojson reads the text by construction
+	for _, d := range ksjson.DanglingTexts() {
+		if d.Kind == "K" {
+			lines = append(lines, lineJ(d.Text, jtTag("dangling-e-field", d.Exp)+"~directed:text"))
+		} else {
+			lines = append(lines, lineF(r.Bytes(16), r.Bytes(2), d.Text, jtTag("dangling-e-field", d.Exp)+"~directed:text"))
+		}
+	}
+	// end to end: Tink's own writer output with the primary key id given a dangling marker is read into a handle
+	for i := 0; i < 6; i++ {
+		ks, nm := base()
+		var buf bytes.Buffer
+		if keyset.NewJSONWriter(&buf).Write(msgOf(ks)) == nil {
+			t := buf.String()
+			if j := strings.Index(t, `"primaryKeyId":`); j >= 0 {
+				k := j + len(`"primaryKeyId":`)
+				for k < len(t) && t[k] == ' ' {
+					k++
+				}
+				e := k
+				for e < len(t) && t[e] >= '0' && t[e] <= '9' {
+					e++
+				}
+				if e > k {
+					lines = append(lines, lineJ(t[:e]+hx.PickS(r, []string{"e", "E", ".0e"})+t[e:], "jt-dangling-e-writer:A~directed:"+nm))
+				}
+			}
+		}
+	}
 	// what the library's own writer produces (whatever its formatting is in this build)
 	for i := 0; i < 6; i++ {
 		ks, nm := base()
